@@ -140,7 +140,7 @@ def skeleton(ctx, facts):
     return out
 
 
-def run(ctx, report):
+def _run_rules(ctx, report):
     sk = {}
     for config in ctx.configs:
         facts = ctx.facts(config)
@@ -161,3 +161,10 @@ def run(ctx, report):
                 report.ob("C19.CFG", "skeleton/%s" % q, ref.get(q) == s_.get(q),
                           "placement body has the same call skeleton as in the default configuration" if ref.get(q) == s_.get(q) else
                           "placement body differs between feature configurations", config=config)
+
+
+def run(ctx, report):
+    _run_rules(ctx, report)
+    from .. import shared as _S
+    for config in ctx.configs:
+        report.guard("C19.ENCAPSULATED", _S.encapsulated, ctx, report, "C19.ENCAPSULATED", ctx.facts(config), config, "C19")
